@@ -17,7 +17,7 @@ from concurrent.futures import ProcessPoolExecutor
 import numpy as np
 
 from .. import stages
-from ..common import Check, sha
+from ..common import Check, sha, touch_same_index
 from ..tlc import Workdir
 
 PROP = "C02"
@@ -253,6 +253,8 @@ def record_r3(seed, count, nmax):
             # integer-valued data go to the detector as int64 half of the time (the table is recorded from the float copy)
             Xin = X.astype(np.int64) if np.all(X == np.round(X)) and rng.integers(0, 2) else X
             det = PELT(cost=mk(), penalty_scale=scale, min_segment_length=m).fit(Xin)
+            if rng.integers(0, 2):
+                touch_same_index(det, Xin)   # the detector has already answered for other values under the same index
             cps = det.predict(Xin)["ilocs"].to_numpy()
         except RuntimeError:
             continue  # documented error: slice covariance not positive definite
